@@ -78,4 +78,13 @@ PROPS = {
         "assumptions": ["a recovered panic is recognised by chi Recoverer's empty 500 and replayed on the handler for its call site",
                         "4xx is demanded only for syntactically malformed values of typed keys and the ranges verifyAndFillConfig documents"],
     },
+    "C14": {
+        "parts": [{"pkg": "livesim", "test": "TestVerifC14", "gen": True}],
+        "clauses": ["C14.status", "C14.traffic", "C14.baseurl"],
+        "level": "model_checking",
+        "rule": "status codes: cycle {1..13,30,60} x rsq {0..cycle/minSeg+2} x code {404,410,503,599} x rep filter {*, video, audio, two patterns} x every video+audio segment over 2*lcm(cycle,loop) s "
+                "x start {0,900} x snr {unset,7} x {Number,Time} on constant- and variable-duration assets (quick: every 4th pattern); "
+                "traffic: all 1884 patterns of <= 3 intervals over {u,d,s,h}x{1,2,3} s (quick: every 5th 3-interval pattern), two BaseURLs, every second of two cycles, on the vrt virtual clock",
+        "assumptions": ["a representation filter matches by the representation id", "slow/hang delays are observed on the virtual clock (zero-time computation)"],
+    },
 }
